@@ -5,6 +5,7 @@ lines (TAB separated; bits as 0/1, '-' = empty; booleans 0/1):
   C19 repr  <cls> <bits> <pos> <lsb0>                -> ok [<text of repr(s)>]
   C19 reprf <cls> <file content bits, whole bytes> <mutation> <pos>
                                                      -> ok [<repr of cls(filename=F) after the mutation, path shown as 'F'>]
+        (Bits/ConstBitStream: the file-name form; BitArray/BitStream: the literal form of the current bits)
   C19 parse [<initialiser string, %XX escapes>]      -> ok <bits> | err          (Bits(<string>), literal sub-language)
   C19 pp    <cls> <bits> <tok1> <tok2|-> <width> <sep code> <show_offset> <lsb0> <no_color>
                                                      -> ok T=<trailing text|-> E=<0|1|-> <len>:<g,g,..>[/<g,g,..>] ...  | err
@@ -27,7 +28,7 @@ except Exception as _e:                                    # the extractor faili
     GEN_DATA, GEN_CHANGED = {"error": repr(_e)}, []
 
 FUNCTIONAL = False
-LEVEL_TEXT = ("47 Lean theorems about the transcription of Bits.__str__/_repr/pp (all proved, none partial): parseAuto (strForm l) = l for "
+LEVEL_TEXT = ("46 Lean theorems about the transcription of Bits.__str__/_repr/pp (all proved, none partial): parseAuto (strForm l) = l for "
               "every bit list of at most 4*MAX_CHARS bits (hex / bin / mixed form, every residue mod 4) under msb0 and lsb0, longer values "
               "end in '...' after the hex of the leading 1000 bits, eval of the repr text gives back class, bits and pos and a truncated "
               "repr ends with the true length; the pp layout (groups per line from width, offset column, trailing bits, the ungrouped "
@@ -38,7 +39,7 @@ LEVEL_TEXT = ("47 Lean theorems about the transcription of Bits.__str__/_repr/pp
               "sizes are re-extracted from the source each run and tied to the model by generated obligations. Correspondence: str/repr "
               "for lengths 0..70, 990..1010 and beyond x 4 classes x pos x msb0/lsb0 (+ every value of the 1-3 tail bits), file-backed "
               "repr, literal parser, pp over format pairs x group sizes x widths 0..200 x separators x show_offset x lsb0 x no_color, "
-              "Array.__repr__. Two known findings (Array repr with > 1000 trailing bits; repr of a mutated file-backed BitArray).")
+              "Array.__repr__ (incl. more than 1000 trailing bits). Three defects found by this check were fixed in /repo (55378c7, 059409d, 19a4a37); no known finding remains.")
 LEVEL_NOTE = ("Trusted: Lean kernel (+propext, Classical.choice, Quot.sound); harness/extract_C19.py; the correspondence harness and its "
               "parser of pp output; bitarray's ba2hex/ba2base/to01 are modelled as digit strings; eval of a repr text is modelled by a "
               "hand-written parser (parseRepr / evalFileRepr). Array.__repr__ is modelled for int/uint/bin/oct/hex/bool items only; "
@@ -544,19 +545,7 @@ def _oracle_pp(f, out, extra):
 
 
 # ---------------------------------------------------------------------------------------------- regions / misc
-def _r_array_long_trailing(line):
-    """Known finding `array-long-trailing`: more than 1000 trailing bits in an Array."""
-    f = line.split(SEP)
-    return f[1] == "arr" and int(f[3]) > 0 and len(unwire(f[4])) % int(f[3]) > 1000
-
-
-def _r_file_repr_mutated(line):
-    """Known finding `file-repr-after-mutation`: a mutable object created from a file and changed since."""
-    f = line.split(SEP)
-    return f[1] == "reprf" and f[4] != "none"
-
-
-REGIONS = {"array_long_trailing": _r_array_long_trailing, "file_repr_after_mutation": _r_file_repr_mutated}
+REGIONS = {}                                                # no known finding: every oracle flag is a violation
 
 
 def nontrivial(line):
